@@ -71,11 +71,112 @@ Proof.
   - destruct (Nat.ltb_spec (length text) (a + (b - a))); [lia|]. replace (a + (b - a)) with b by lia. reflexivity.
 Qed.
 
+Lemma sub_to_end text ro : ro <= length text -> sub text ro (length text) = skipn ro text.
+Proof. intros H. unfold sub. apply firstn_all2. rewrite skipn_length. lia. Qed.
+
 Lemma splice_fold text : forall ms lo w,
   chain text lo ms -> lo <= length text ->
-  fold_left (splice_step text) ms (lo, length w, w) =
-  (match ms with [] => lo | _ => mend (last ms {| mnum := 0; mstart := 0; mend := 0; mlstart := 0; mlend := 0; mcstart := 0; mcend := 0; mvalue := []; mrepl := None; mvars := [] |}) end,
-   length w + (length (spec_splice text lo ms) - length (skipn (match ms with [] => lo | _ => mend (last ms {| mnum := 0; mstart := 0; mend := 0; mlstart := 0; mlend := 0; mcstart := 0; mcend := 0; mvalue := []; mrepl := None; mvars := [] |}) end) text)),
-   w ++ firstn (length (spec_splice text lo ms) - length (skipn (match ms with [] => lo | _ => mend (last ms {| mnum := 0; mstart := 0; mend := 0; mlstart := 0; mlend := 0; mcstart := 0; mcend := 0; mvalue := []; mrepl := None; mvars := [] |}) end) text)) (spec_splice text lo ms)).
+  exists ro w', fold_left (splice_step text) ms (lo, length w, w) = (ro, length w', w') /\
+                ro <= length text /\ w' ++ skipn ro text = w ++ spec_splice text lo ms.
 Proof.
-Abort.
+  induction ms as [|m r IH]; intros lo w Hch Hlo.
+  - exists lo, w. cbn [fold_left spec_splice]. auto.
+  - destruct Hch as (Hlo' & Hloc & Hrest).
+    destruct Hloc as (Hse & Hel & Hval & _).
+    cbn [fold_left]. unfold splice_step at 2.
+    rewrite (read_sub text lo (mstart m)) by lia.
+    rewrite write_at_end.
+    assert (Hlen1 : length w + (mstart m - lo) = length (w ++ sub text lo (mstart m))).
+    { rewrite app_length, sub_length by lia. reflexivity. }
+    rewrite Hlen1, write_at_end.
+    assert (Hv : length (mvalue m) = mend m - mstart m) by (rewrite Hval, sub_length by lia; reflexivity).
+    replace (lo + (mstart m - lo) + length (mvalue m)) with (mend m) by lia.
+    replace (length (w ++ sub text lo (mstart m)) + length (repl_text m))
+      with (length ((w ++ sub text lo (mstart m)) ++ repl_text m)) by (rewrite (app_length (w ++ _)); reflexivity).
+    destruct (IH (mend m) ((w ++ sub text lo (mstart m)) ++ repl_text m) Hrest Hel) as (ro & w' & Hf & Hro & Hw).
+    exists ro, w'. split; [exact Hf|]. split; [exact Hro|].
+    rewrite Hw. cbn [spec_splice]. rewrite <- !app_assoc. reflexivity.
+Qed.
+
+(* the written text is the exact splice, whatever the relative lengths *)
+Theorem splice_correct text ms : chain text 0 ms -> splice text ms = spec_splice text 0 ms.
+Proof.
+  intros Hch. unfold splice.
+  destruct (splice_fold text ms 0 [] Hch (Nat.le_0_l _)) as (ro & w' & Hf & Hro & Hw).
+  cbn [length] in Hf. rewrite Hf. cbn [app] in Hw.
+  destruct (Nat.ltb_spec ro (length text)) as [Hlt|Hge].
+  - rewrite (read_sub text ro (length text)) by lia. rewrite write_at_end, sub_to_end by lia. exact Hw.
+  - rewrite skipn_all2 in Hw by lia. rewrite app_nil_r in Hw. exact Hw.
+Qed.
+
+(* end to end for the model: whatever a replace command finds, what it writes is the exact splice *)
+Theorem replace_output_splice fuel fname text all sk tk la body replacer out :
+  replace_output fuel fname text (BReplace all sk tk la body replacer) = Some out ->
+  exists ms, run_find fuel fname text (BReplace all sk tk la body replacer) = ROk ms /\
+             out = spec_splice text 0 ms /\ chain text 0 ms.
+Proof.
+  unfold replace_output. destruct (run_find fuel fname text (BReplace all sk tk la body replacer)) as [ms| |] eqn:E; try discriminate.
+  intros H. inversion H; subst. exists ms. split; [reflexivity|].
+  assert (Hch : chain text 0 ms).
+  { cbn [run_find] in E. destruct (find_matches fuel body text all sk tk la) as [W| |] eqn:EW; try discriminate.
+    pose proof (find_matches_located text body fuel all sk tk la W EW) as HW.
+    destruct (replace_all fname (length W) replacer W) as [W'| |] eqn:ER; try discriminate. inversion E; subst.
+    apply replace_all_same in ER. clear EW E H. revert HW. generalize 0.
+    induction ER as [|m m' W ms Hm _ IH]; intros lo HW; [exact I|].
+    destruct HW as (H1 & H2 & H3). destruct Hm as (E1 & E2 & E3 & E4 & E5 & E6 & E7 & E8 & E9).
+    cbn [chain]. unfold located in *. rewrite E2, E3, E4, E5, E6, E7, E8.
+    split; [exact H1|]. split; [exact H2|]. apply IH. exact H3. }
+  split; [apply splice_correct; exact Hch|exact Hch].
+Qed.
+
+(* ---------- modes ---------- *)
+Lemma alookup_aset_other {A} (m : list (bytes * A)) k k' v : k' <> k -> alookup (aset m k v) k' = alookup m k'.
+Proof.
+  intros Hne. unfold aset. cbn [alookup]. destruct (bytes_eqb_spec k k'); [congruence|].
+  induction m as [|[k0 v0] m IH]; cbn [aremove alookup]; [reflexivity|].
+  destruct (bytes_eqb_spec k0 k) as [E|E].
+  - subst k0. destruct (bytes_eqb_spec k k'); [congruence|exact IH].
+  - cbn [alookup]. destruct (bytes_eqb k0 k'); [reflexivity|exact IH].
+Qed.
+
+Lemma alookup_aset_same {A} (m : list (bytes * A)) k v : alookup (aset m k v) k = Some v.
+Proof. unfold aset. cbn [alookup]. rewrite bytes_eqb_refl. reflexivity. Qed.
+
+(* one command on one file: NOTHING changes nothing; find changes nothing; NEW changes only
+   <file>.vored, OVERWRITE only the file itself, and to exactly the splice *)
+Theorem modes_effect fuel mode fs fname c r fs' :
+  run_file_cmd fuel mode fs fname c = (r, fs') ->
+  (mode = MNothing -> fs' = fs) /\
+  ((forall a s t l b rp, c <> BReplace a s t l b rp) -> fs' = fs) /\
+  (forall text, alookup fs fname = Some text ->
+     forall d, dest mode fname = Some d ->
+       (forall k, k <> d -> alookup fs' k = alookup fs k) /\
+       (forall a s t l b rp ms, c = BReplace a s t l b rp -> r = ROk ms -> alookup fs' d = Some (splice text ms))).
+Proof.
+  unfold run_file_cmd. intros H.
+  destruct (alookup fs fname) as [text|] eqn:Ef.
+  2:{ inversion H; subst. split; [auto|]. split; [auto|]. intros text Hc. discriminate. }
+  split; [|split].
+  - intros Hm. subst mode. destruct c; try (inversion H; reflexivity).
+    destruct (run_find fuel fname text _); inversion H; reflexivity.
+  - intros Hnr. destruct c; try (inversion H; reflexivity). exfalso. eapply Hnr. reflexivity.
+  - intros text' Et d Hd. inversion Et; subst text'. split.
+    + intros k Hk. destruct c; try (inversion H; reflexivity).
+      destruct (run_find fuel fname text _); try (inversion H; reflexivity).
+      rewrite Hd in H. inversion H; subst. apply alookup_aset_other. exact Hk.
+    + intros a s t l b rp ms Hc Hr. subst c. destruct (run_find fuel fname text _) as [ms0|w|] eqn:E.
+      * rewrite Hd in H. inversion H as [[Er Efs]]. rewrite <- Er in Hr. inversion Hr; subst ms0. apply alookup_aset_same.
+      * inversion H as [[Er Efs]]. rewrite <- Er in Hr. discriminate.
+      * inversion H as [[Er Efs]]. rewrite <- Er in Hr. discriminate.
+Qed.
+
+Lemma replace_find_same_lemma :
+  forall fuel fname text all sk tk la body replacer ms',
+  run_find fuel fname text (BReplace all sk tk la body replacer) = ROk ms' ->
+  exists ms, run_find fuel fname text (BFind all sk tk la body) = ROk ms /\ Forall2 same_but_repl ms ms'.
+Proof.
+  intros fuel fname text all sk tk la body replacer ms' H. cbn [run_find] in *.
+  destruct (find_matches fuel body text all sk tk la) as [W| |]; try discriminate.
+  destruct (replace_all fname (length W) replacer W) as [W'| |] eqn:E; try discriminate.
+  inversion H; subst. exists W. split; [reflexivity|]. eapply replace_all_same; eauto.
+Qed.
